@@ -51,7 +51,7 @@ class OpTimeout(Exception):
 
 A_VALUES = [-2.0, 0.0, 1.0, 3.5, -1.0, 1.0 / 3000.0]      # 1/3000: a small first knot that is not a multiple of 1e-18 (the evaluators
 #                                                           round their sample parameters to 18 decimals - below the first knot)
-L_VALUES = [0.5, 1.0, 2.0, 4.0]
+L_VALUES = [0.5, 1.0, 2.0, 4.0, 1048576.0]      # 2**20: a parameter range in other units (raw derivatives shrink by 1/L per order)
 BASELINE = {"span": "linear", "evaluator": "default", "normalize": True, "aL": [[0.0, 1.0]] * 3, "num_procs": 1,
             "sched": 0, "chunk": "default", "faults": []}
 
@@ -586,7 +586,22 @@ def execute_workload(script, cfg):
                     grid, filled = g.voxelize.voxelize(tgt, grid_size=tuple(op["grid"]), num_procs=np_, **vkw)
                 else:
                     grid, filled = g.voxelize.voxelize(tgt, grid_size=tuple(op["grid"]), **vkw)
-                val = [[[list(b[0]), list(b[1])] for b in grid], [int(bool(x)) for x in filled]]
+                fill = [int(bool(x)) for x in filled]
+                # in / out is a discontinuous function of the sampled points: a voxel with a sampled point within a hair of one of its
+                # (padded) faces may legitimately change sides when the points differ in their last bits between configurations
+                padv = op["pad"][1] if (op.get("pad") and op["pad"][0] == "tol") else 10e-8
+                pts_ = [list(q) for q in tgt.evalpts]
+                span_ = max([abs(c) for q in pts_ for c in q] + [1.0])
+                eps_ = 1e-9 * span_
+                for vi, b in enumerate(grid):
+                    lo_ = [c - padv for c in b[0]]
+                    hi_ = [c + padv for c in b[1]]
+                    for q in pts_:
+                        if all(l - eps_ <= c <= h + eps_ for c, l, h in zip(q, lo_, hi_)) and \
+                                not all(l + eps_ <= c <= h - eps_ for c, l, h in zip(q, lo_, hi_)):
+                            fill[vi] = 2          # fragile: not compared
+                            break
+                val = [[[list(b[0]), list(b[1])] for b in grid], fill]
             elif k == "cadd":
                 if nd != 2 or i in members or len(members) >= 4:
                     out.append(["skip"])
@@ -738,6 +753,15 @@ def _first_mismatch(script, base, obs, cfg):
             return idx, "valid_call_fails", "%r returned under the baseline but raised %s: %s" % (op, o[1], o[2])
         if b[0] == "exc":
             continue       # not a previously valid call; nothing to compare
+        if op["op"] == "voxelize" and isinstance(o[1], list) and isinstance(b[1], list) and len(o[1]) == 2 and len(b[1]) == 2 \
+                and len(o[1][1]) == len(b[1][1]):
+            # voxels that either side marked as fragile (a sampled point on a face) are not compared
+            fo, fb = list(o[1][1]), list(b[1][1])
+            for vi in range(len(fo)):
+                if fo[vi] == 2 or fb[vi] == 2:
+                    fo[vi] = fb[vi] = 0
+            o = [o[0], [o[1][0], fo]]
+            b = [b[0], [b[1][0], fb]]
         ok, why = close(o[1], b[1], TOL)
         if not ok:
             return idx, "different_answer", "%r answered differently: %s\n  baseline: %s\n  config  : %s" % (
